@@ -4,7 +4,7 @@ from .. import core
 from ..core import Run, ToolError
 
 SIM = {  # maxfaults: injected faults (C10 only)
-       "quick": dict(num=250, workers=4, maxnodes=30, minnodes=12), "thorough": dict(num=2500, workers=16, maxnodes=45, minnodes=16)}
+       "quick": dict(num=250, workers=4, maxnodes=30, minnodes=12), "thorough": dict(num=200, workers=16, maxnodes=45, minnodes=16)}
 
 
 def sim_cfg(run, p):
